@@ -246,6 +246,14 @@ pub fn main(args: &Args) -> std::io::Result<()> {
                 let mut pat = Pattern { offsets: vec![iv; 400], k: 0, segs: vec![] };
                 let opts = HatchingOptions::DEFAULT.with_angle(Angle::radians(angle)).with_tolerance(tol);
                 Hatcher::new().hatch_path(path.iter(), &opts, &mut pat);
+                // without tangents, and on a hatcher that has been used before: the same segments
+                let mut pat2 = Pattern { offsets: vec![iv; 400], k: 0, segs: vec![] };
+                let mut h = Hatcher::new();
+                h.hatch_path(lyon_path::Path::new().iter(), &HatchingOptions::DEFAULT, &mut Pattern { offsets: vec![1.0; 4], k: 0, segs: vec![] });
+                h.hatch_path(path.iter(), &opts.with_tangents(false), &mut pat2);
+                if pat2.segs != pat.segs {
+                    panic!("with_tangents(false) / a reused hatcher changes the segments");
+                }
                 let mut dots = Dots { row_iv: iv, col_iv: 0.5, dots: vec![] };
                 let dopts = DotOptions::DEFAULT.with_angle(Angle::radians(angle)).with_tolerance(tol);
                 Hatcher::new().dot_path(path.iter(), &dopts, &mut dots);
